@@ -30,6 +30,9 @@ type LayoutCase struct {
 	Writer     string      `json:"writer_spelling"`
 	Mutation   string      `json:"mutation"`
 	Drain      bool        `json:"drain"` // finish everything, prune --yes, compact: the log file becomes empty
+	// OddNames: directory names that mean something to a shell but are plain names to the
+	// file system ($word, ${word}, a leading ~, a space, %41)
+	OddNames bool `json:"odd_directory_names,omitempty"`
 	Violations []Violation `json:"violations,omitempty"`
 }
 
@@ -127,6 +130,20 @@ func listIDs(cwd string, dirArgs []string) (map[string]string, Res) {
 	return out, r
 }
 
+func (lc LayoutCase) pname(i int) string {
+	if lc.OddNames {
+		return []string{"~work", "cost$center", "p ${HOME} x", "%41$USER"}[i%4]
+	}
+	return fmt.Sprintf("p%d", i)
+}
+
+func (lc LayoutCase) sname(i int) string {
+	if lc.OddNames {
+		return []string{"src$PWD", "~", "$HOME", "a b$c~"}[i%4]
+	}
+	return fmt.Sprintf("s%d", i)
+}
+
 func runLayoutCase(lc LayoutCase) (viol []string, labels []string) {
 	bad := func(f string, a ...any) { viol = append(viol, fmt.Sprintf(f, a...)) }
 	base := NewScratchDir("c18")
@@ -137,10 +154,10 @@ func runLayoutCase(lc LayoutCase) (viol []string, labels []string) {
 	}
 	project := base
 	for i := 0; i < lc.Depth; i++ {
-		project = filepath.Join(project, fmt.Sprintf("p%d", i))
+		project = filepath.Join(project, lc.pname(i))
 	}
 	if lc.Depth == 0 {
-		project = filepath.Join(base, "proj")
+		project = filepath.Join(base, map[bool]string{false: "proj", true: "~proj$x"}[lc.OddNames])
 	}
 	seed, err := makeProject(project, lc.Files, "seed of the project")
 	if err != nil {
@@ -148,12 +165,12 @@ func runLayoutCase(lc LayoutCase) (viol []string, labels []string) {
 	}
 	start := project
 	for i := 0; i < lc.StartDepth; i++ {
-		start = filepath.Join(start, fmt.Sprintf("s%d", i))
+		start = filepath.Join(start, lc.sname(i))
 	}
 	_ = os.MkdirAll(start, 0o755)
 	target := project
 	if lc.Nested {
-		nested := filepath.Join(project, "s0", "inner")
+		nested := filepath.Join(project, lc.sname(0), "inner")
 		if _, err := makeProject(nested, "plans", "seed of the nested project"); err != nil {
 			return nil, []string{"setup-failed"}
 		}
@@ -416,6 +433,9 @@ func runLayoutCase(lc LayoutCase) (viol []string, labels []string) {
 		labels = append(labels, "drained")
 	}
 	labels = append(labels, "files."+lc.Files, "mutation."+lc.Mutation, "writer."+lc.Writer)
+	if lc.OddNames {
+		labels = append(labels, "directory_names_with_shell_metacharacters")
+	}
 	return
 }
 
@@ -465,6 +485,7 @@ func TestC18(t *testing.T) {
 		}
 		lc.Mutation = oneOf(rt, []string{"new", "new", "plan", "set", "claim"}, "mutation")
 		lc.Drain = pct(rt, 45, "drain")
+		lc.OddNames = pct(rt, 35, "oddnames")
 		viol, labels := runLayoutCase(lc)
 		if len(viol) > 0 {
 			var vs []Violation
